@@ -14,7 +14,7 @@ Hist == Mode \in {"history", "historyd"}
 \* template is rendered with a receiver of another type than before (string, array, integer)
 OpsD == {Op("String", "ok"), Op("String", "bad"), Op("String", "row1"), Op("String", "row2"), Op("EvalString", "row1"), Op("EvalString", "row2"),
          Op("String", "polyS"), Op("String", "polyA"), Op("String", "polyI"), Op("Response", "polyA"), Op("Response", "polyS"),
-         Op("String", "ok2"), Op("String", "bare"), Op("String", "static"), Op("String", "nested-use"), Op("String", "dotS"), Op("String", "dotM"), Op("String", "lastA"), Op("String", "lastB"), Op("String", "lastC"), Op("String", "floatdec"), Op("EvalString", "sameprintI"), Op("EvalString", "sameprintS")}      \* pages of one layout: with inserts, with other inserts, without any
+         Op("String", "ok2"), Op("String", "bare"), Op("String", "static"), Op("String", "nested-use"), Op("String", "dotS"), Op("String", "dotM"), Op("String", "lastA"), Op("String", "lastB"), Op("String", "lastC"), Op("String", "floatdec"), Op("String", "okbad"), Op("Response", "okbad"), Op("EvalString", "sameprintI"), Op("EvalString", "sameprintS")}      \* pages of one layout: with inserts, with other inserts, without any
 Ops15 == IF Mode = "historyd" THEN OpsD ELSE
          {Op("String", "ok"), Op("String", "bad"), Op("String", "missing"), Op("Response", "ok"), Op("Response", "bad"),
           Op("Response", "missing"), Op("EvalString", "ok"), Op("EvalString", "bad"), Op("EvalFile", "ok")}
